@@ -643,3 +643,61 @@ Theorem duplicate_keys_lose_messages :
   exists w, encode_produce_request (fun _ => 0) [99] 1 [dup_first; dup_second] 1 1000 0 = Ok w /\
             encode_produce_request (fun _ => 0) [99] 1 [dup_second] 1 1000 0 = Ok w.
 Proof. split; [discriminate|]. eexists. split; vm_compute; reflexivity. Qed.
+
+(* ------------------------------------------------------------------ the consumer-protocol blobs *)
+Definition subscription_wf (version : Z) (subs : list text) (ud : obytes) : bool :=
+  in_i16 version && count_wf subs && forallb ustr_wf subs && nbytes_wf ud.
+
+Theorem subscription_conforms version subs ud : subscription_wf version subs ud = true ->
+  exists w, encode_join_group_protocol_metadata version subs ud = Ok w /\
+            parse_subscription w = Some (version, map ubytes subs, ud).
+Proof.
+  unfold subscription_wf. intros H.
+  repeat match type of H with _ && _ = true => let X := fresh "W" in apply andb_prop in H; destruct H as [H X] end.
+  assert (He : exists w, enc_all write_short_text subs = Ok w).
+  { apply enc_all_total. intros a I. apply ustr_total. rewrite forallb_forall in W0. now apply W0. }
+  destruct He as [e Ee]. destruct (nbytes_total _ W) as [u Eu].
+  assert (E : encode_join_group_protocol_metadata version subs ud
+              = Ok ((enc_be 2 version ++ enc_be 4 (llen subs) ++ []) ++ e ++ u)).
+  { unfold encode_join_group_protocol_metadata. cbn [pack_list].
+    rewrite (pack_total Fh _ H), (pack_total Fi _ (llen_i32 _ W1)), Ee, Eu. reflexivity. }
+  eexists. split; [exact E|]. apply subscription_parses; [exact E|].
+  apply forallb_forall. intros t I. apply ustr_present. rewrite forallb_forall in W0. now apply W0.
+Qed.
+
+Lemma pack_list_total fs : forallb (fun fv => fmt_in (fst fv) (snd fv)) fs = true -> exists w, pack_list fs = Ok w.
+Proof.
+  induction fs as [|[f z] r IH]; intros H; cbn [pack_list]; [eexists; reflexivity|].
+  cbn [forallb fst snd] in H. apply andb_prop in H. destruct H as [A B]. rewrite (pack_total f z A).
+  destruct (IH B) as [w ->]. cbn [bind]. eexists. reflexivity.
+Qed.
+
+Definition assignment_wf (version : Z) (asg : list (text * list Z)) (ud : obytes) : bool :=
+  in_i16 version && count_wf asg
+  && forallb (fun tp => astr_wf (fst tp) && (len (snd tp) <=? MAX32) && forallb in_i32 (snd tp)) asg && nbytes_wf ud.
+
+Theorem assignment_conforms version asg ud : assignment_wf version asg ud = true ->
+  exists w, encode_sync_group_member_assignment version asg ud = Ok w /\
+            parse_assignment w = Some (version, map (fun tp : text * list Z => (abytes (fst tp), snd tp)) asg, ud).
+Proof.
+  unfold assignment_wf. intros H.
+  repeat match type of H with _ && _ = true => let X := fresh "W" in apply andb_prop in H; destruct H as [H X] end.
+  rewrite forallb_forall in W0.
+  assert (He : exists w, enc_all (fun tp : text * list Z =>
+                                    do n <- write_short_ascii (fst tp);
+                                    do ps <- pack_list ((Fi, len (snd tp)) :: map (fun x => (Fi, x)) (snd tp)); Ok (n ++ ps)) asg = Ok w).
+  { apply enc_all_total. intros [t ps] I. specialize (W0 _ I). cbn [fst snd] in *.
+    repeat match type of W0 with _ && _ = true => let X := fresh "V" in apply andb_prop in W0; destruct W0 as [W0 X] end.
+    destruct (astr_total _ W0) as [n ->]. cbn [bind].
+    destruct (pack_list_total ((Fi, len ps) :: map (fun x => (Fi, x)) ps)) as [w ->]; [|cbn [bind]; eexists; reflexivity].
+    cbn [forallb fst snd]. rewrite (len_i32 _ V0). cbn [andb]. rewrite forallb_forall in V.
+    apply forallb_forall. intros [f z] Iz. apply in_map_iff in Iz. destruct Iz as (x & [= <- <-] & Ix). cbn [fst snd fmt_in]. now apply V. }
+  destruct He as [e Ee]. destruct (nbytes_total _ W) as [u Eu].
+  assert (E : exists w, encode_sync_group_member_assignment version asg ud = Ok w).
+  { unfold encode_sync_group_member_assignment. rewrite (pack_total Fh _ H), (pack_total Fi _ (llen_i32 _ W1)). cbn [bind].
+    match goal with |- context [enc_all ?f asg] => replace (enc_all f asg) with (@Ok (list Z) e) by (symmetry; exact Ee) end.
+    rewrite Eu. cbn [bind]. eexists. reflexivity. }
+  destruct E as [w E]. exists w. split; [exact E|]. apply assignment_parses; [exact E|].
+  apply forallb_forall. intros tp I. apply astr_present. specialize (W0 _ I).
+  repeat match type of W0 with _ && _ = true => let X := fresh "V" in apply andb_prop in W0; destruct W0 as [W0 X] end. exact W0.
+Qed.
